@@ -20,11 +20,24 @@ MANIFEST = dict(
          "whole-file round trip for MOD, pattern-codec and sample-header-codec round trips for S3M/XM/IT; the encoder's files are "
          "loaded by the real library and every listed field is compared with the abstract song (direct oracle); the loader "
          "model is tied to the C by differential correspondence on the written files, byte mutants and the repository corpus.",
-    note="",
+    note="Proved (Lean kernel, axioms propext/Classical.choice/Quot.sound): MOD whole-file round trip read(write s o)=some s for all "
+         "signature kinds and option streams; S3M packed-pattern codec for every what-flag choice; XM cell codec for unpacked and every "
+         "packed mask; IT note/volume/instrument byte codecs; 8-bit sign conversion. NOT proved, only evaluated on every generated case "
+         "(rt ok) and checked against the real loader: file-level assembly of S3M/XM/IT (headers, offset tables, sample headers, PCM "
+         "conversions delta/16-bit/stereo), the IT mask/last-value pattern compression. Not modelled (model silent, oracle still "
+         "compares what the real loader returns for written files): IT instrument mode (IMPI headers, key maps, envelopes), IT2.14/2.15 "
+         "compressed samples (itsex.c), XM <= 1.03 layout, AdLib/ADPCM/OGG samples, truncated files, effect columns (opaque), "
+         "xpo/fin derived from c2spd by floating point (S3M/IT), XMP_SAMPLE_LOOP_FULL, envelopes and every field the property does not "
+         "list. Observation rule: loop points compared only when the loop flag is set. Domain restrictions found by the oracle/proofs: "
+         "the order list must reach a pattern before an end marker (scan refuses otherwise), MOD sample bodies must not spell 'ADPCM' "
+         "at a sample start (ModPlug extension is ambiguous with raw PCM), IT samples of exactly one frame are never loaded (len>1 test), "
+         "an IT pattern stored as offset 0 is 64 rows. Trusted: the hand-written models, the harness dump, the differ.",
     technique="Lean 4 codec round-trip proofs + specification-derived encoder as oracle + differential correspondence of the loader model",
     design_ref="DESIGN.md section 4 C19",
 )
-REQUIRED = []
+REQUIRED = ["Xmp.Fmt.C19_roundtrip_mod", "Xmp.Fmt.C19_mod_period_roundtrip", "Xmp.Fmt.C19_mod_adpcm_hypothesis_needed",
+            "Xmp.Fmt.C19_s3m_pattern_codec", "Xmp.Fmt.C19_s3m_note_codec", "Xmp.Fmt.C19_xm_cell_codec",
+            "Xmp.Fmt.C19_xm_cells_codec", "Xmp.Fmt.C19_it_field_codecs_partial", "Xmp.Fmt.C19_pcm_sign8_involutive"]
 
 TYPE_PREFIX = {"mod": None, "s3m": " S3M", "xm": " XM ", "it": " IT "}
 
